@@ -12,10 +12,10 @@ import _dp
 
 def run(c):
     drv = c.build("dp")
-    _dp.model(c)
     if c.replay:
         trace = c.replay
     else:
+        _dp.model(c)
         trace = c.scratch + "/tamper.ndjson"
         c.run_driver(drv, ["-mode", "tamper", "-out", trace, "-topos", "T1,T2,T3"])
     _dp.validate(c, "C04", trace)
